@@ -25,6 +25,29 @@ def op (name : String) (j : Json) : Except String (Option Json) := do
     let ls ← jLines j "lines"
     let c1 := (← jStr j "chain1").toList; let c2 := (← jStr j "chain2").toList
     pure (some (exceptJ natJ (Model.Fnat.clashesFile ls c1 c2)))
+  | "fnat_history" =>
+    -- a sequence of calls on ONE StructureSimilarity object: the routines are functions of (files, cutoff), so the model answers
+    -- every call on its own, whatever was called before
+    let refL ← jLines j "ref_lines"; let decL ← jLines j "dec_lines"
+    let calls ← jArr j "calls"
+    let answers ← calls.toList.mapM (fun (cj : Json) => do
+      let route ← jStr cj "route"
+      let isDefault := (jStr cj "cutoff") matches .ok "default"
+      match route with
+      | "fast" =>
+        let c ← if isDefault then pure Gen.fnat_fast_cutoff_default else jRat cj "cutoff"
+        pure (exceptJ ratJ (Model.Fnat.fnatFastFiles refL decL c))
+      | "sql" =>
+        let c ← if isDefault then pure Gen.fnat_sql_cutoff_default else jRat cj "cutoff"
+        pure (exceptJ ratJ (Model.Fnat.fnatSqlFiles refL decL c))
+      | "clashes" =>
+        let c1 := (← jStr cj "chain1").toList; let c2 := (← jStr cj "chain2").toList
+        pure (exceptJ natJ (Model.Fnat.clashesFile decL c1 c2))
+      | _ => throw s!"unknown route {route}")
+    pure (some (Json.mkObj [("values", Json.arr answers.toArray),
+      ("raw_agrees", boolJ (match Model.Fnat.tableOfLines decL with
+        | .ok t => Model.Fnat.rawAgrees decL t
+        | .error _ => false))]))
   | "superpose" =>
     let mob ← jAtoms j "mobile"; let tar ← jAtoms j "target"
     let sel ← jSel j "sel"
